@@ -142,6 +142,8 @@ def corr_equal(impl, model):
     """The client may lose the tail of the transcript when the server closes with unread request bytes in its
     receive queue (the kernel answers RST; the harness marks such transcripts with reset=1): then what the client
     received must be a prefix of the model's transcript; everything else is compared exactly."""
+    # mode B prints whether the scenario was really reached (a file existed, the slow handler ran): not compared
+    impl = " ".join(t for t in impl.split(" ") if not t.startswith(("hadfile=", "slow=")))
     if impl == model:
         return True
     if " reset=1" not in impl:
